@@ -140,11 +140,35 @@ static Result judge_grow(const Case& c) {
   va::reset_counters(); use_va();
   cbor_item_t* cont = kind == K_INDEFARR ? cbor_new_indefinite_array() : kind == K_INDEFMAP ? cbor_new_indefinite_map() : kind == K_BSTR ? cbor_new_indefinite_bytestring() : cbor_new_indefinite_string();
   std::vector<cbor_item_t*> model;
-  uint64_t re0 = va::g.reallocs; size_t prev_alloc = 0;
+  uint64_t re0 = va::g.reallocs; size_t prev_alloc = 0; uint64_t refused_calls = 0;
   auto fail = [&](const std::string& m) { r.ok = false; if (r.msg.empty()) r.msg = std::string(kname(kind)) + ": " + m; };
   for (size_t i = 0; i < n && r.ok; i++) {
-    cbor_item_t* x = fresh_elem(kind, i); bool ok;
-    if (kind == K_INDEFARR) ok = cbor_array_push(cont, x);
+    cbor_item_t* x = fresh_elem(kind, i); bool ok; bool already = false;
+    // a refused (allocation-starved) insertion is not a successful operation: the list must stay as it was
+    if (n <= 300 || (i & (i - 1)) == 0) {
+      va::g.fail_from = (int64_t)va::g.requests;
+      bool okr;
+      if (kind == K_INDEFARR) okr = cbor_array_push(cont, x);
+      else if (kind == K_INDEFMAP) { struct cbor_pair p{x, x}; okr = cbor_map_add(cont, p); }
+      else okr = kind == K_BSTR ? cbor_bytestring_add_chunk(cont, x) : cbor_string_add_chunk(cont, x);
+      bool refused = va::g.refused_fault > 0; va::g.refused_fault = 0;
+      va::reset_faults();
+      vh::counters["growth_refusal_attempts"] += refused; refused_calls += refused;
+      if (refused) {
+        if (okr) fail("insertion " + std::to_string(i) + " reported success although the allocator refused the growth");
+        size_t sz = kind == K_INDEFARR ? cbor_array_size(cont) : kind == K_INDEFMAP ? cbor_map_size(cont) : kind == K_BSTR ? cbor_bytestring_chunk_count(cont) : cbor_string_chunk_count(cont);
+        if (sz != i) fail("a refused insertion changed the size from " + std::to_string(i) + " to " + std::to_string(sz));
+        void* hd = kind == K_INDEFARR ? (void*)cbor_array_handle(cont) : kind == K_INDEFMAP ? (void*)cbor_map_handle(cont) : kind == K_BSTR ? (void*)cbor_bytestring_chunks_handle(cont) : (void*)cbor_string_chunks_handle(cont);
+        if (i > 0 && hd == nullptr) fail("a refused insertion lost the contents (handle is NULL with " + std::to_string(i) + " entries)");
+        for (size_t j = 0; j < i && r.ok && (i <= 64 || j + 8 >= i || j < 8); j++) {
+          cbor_item_t* got = kind == K_INDEFARR ? cbor_array_handle(cont)[j] : kind == K_INDEFMAP ? cbor_map_handle(cont)[j].key : kind == K_BSTR ? cbor_bytestring_chunks_handle(cont)[j] : cbor_string_chunks_handle(cont)[j];
+          if (got != model[j]) fail("a refused insertion changed element " + std::to_string(j));
+        }
+        if (!r.ok) break;
+      } else if (okr) already = true;   // no growth was needed: the insertion simply succeeded
+    }
+    if (already) ok = true;
+    else if (kind == K_INDEFARR) ok = cbor_array_push(cont, x);
     else if (kind == K_INDEFMAP) { struct cbor_pair p{x, x}; ok = cbor_map_add(cont, p); }
     else ok = kind == K_BSTR ? cbor_bytestring_add_chunk(cont, x) : cbor_string_add_chunk(cont, x);
     if (!ok) fail("insertion " + std::to_string(i) + " refused by an indefinite container");
@@ -165,7 +189,7 @@ static Result judge_grow(const Case& c) {
       }
     }
   }
-  uint64_t re = va::g.reallocs - re0;
+  uint64_t re = va::g.reallocs - re0 - refused_calls;   // granted reallocations only
   double bound = 4 + 2 * std::ceil(std::log2((double)n + 1));
   if (r.ok && (double)re > bound) fail(std::to_string(n) + " insertions cost " + std::to_string(re) + " reallocations; a geometric growth policy needs at most " + std::to_string((int)bound));
   vh::counters["growth_insertions"] += n; vh::counters["growth_reallocs"] += re;
@@ -216,6 +240,33 @@ static Result judge_aload(const Case& c) {
   if (!msg.empty()) { r.ok = false; r.msg = msg; }
   return r;
 }
+// fault schedules under the arena: the failure paths must release through the installed allocator too
+static Result judge_afault(const Case& c) {
+  Result r; r.klass = "AFAULT"; r.nontrivial = c.aux[0] > 0;
+  if (!g_hooks) { r.skipped = true; return r; }
+  ar::reset_all(); use_arena();
+  std::string msg;
+  cbor_item_t* arg = nullptr;
+  if (c.aux[1] != 0) { struct cbor_load_result res; arg = cbor_load(c.data.data(), c.data.size(), &res); if (!arg) { use_va(); r.skipped = true; return r; } }
+  uint64_t live_before = ar::g.live_blocks;
+  ar::reset_counters();
+  ar::g.fail_at = (int64_t)c.aux[0];
+  {
+    ar::InLib g;
+    if (c.aux[1] == 0) { struct cbor_load_result res; cbor_item_t* it = cbor_load(c.data.data(), c.data.size(), &res); if (it) cbor_decref(&it); }
+    else if (c.aux[1] == 1) { cbor_item_t* cp = cbor_copy(arg); if (cp) cbor_decref(&cp); }
+    else { unsigned char* b = nullptr; size_t l = 0; cbor_serialize_alloc(arg, &b, &l); if (b) _cbor_free(b); }
+  }
+  ar::g.fail_at = -1;
+  if (ar::g.libc_mallocs_in_lib || ar::g.libc_frees_in_lib) msg = "C library heap used inside a libcbor call on an allocation-failure path (" + std::to_string(ar::g.libc_mallocs_in_lib) + " malloc, " + std::to_string(ar::g.libc_frees_in_lib) + " free)";
+  else if (ar::g.foreign) msg = "a pointer that did not come from the installed allocator was handed to its free/realloc";
+  else if (ar::g.double_free) msg = "a block was released twice through the installed allocator";
+  else if (ar::g.live_blocks != live_before) msg = "after a refused allocation " + std::to_string((long long)ar::g.live_blocks - (long long)live_before) + " block(s) of the installed allocator were not handed back to it";
+  if (arg) { ar::InLib g; cbor_decref(&arg); }
+  use_va();
+  if (!msg.empty()) { r.ok = false; r.msg = msg; }
+  return r;
+}
 static Result judge_stateless(const Case& c) {
   Result r; r.klass = "STATELESS"; r.nontrivial = c.data.size() >= 2;
   if (!g_hooks) { r.skipped = true; return r; }
@@ -245,6 +296,7 @@ static Result run_case(const std::string& prop, const Case& c) {
   if (c.campaign == "GROW") return judge_grow(c);
   if (c.campaign == "ALOAD") return judge_aload(c);
   if (c.campaign == "STATELESS") return judge_stateless(c);
+  if (c.campaign == "AFAULT") return judge_afault(c);
   return judge_history(prop, c);
 }
 
@@ -267,7 +319,7 @@ static std::vector<std::array<uint8_t, 4>> alphabet() {
   op(H_SET, 0, 1, 0); op(H_REPLACE, 0, 1, 0); op(H_REPLACE, 0, 2, 0); op(H_GET, 0, 0, 0); op(H_GET, 0, 0, 1);
   op(H_MAP_ADD, 0, 1, 2); op(H_MAP_ADD, 0, 1, 1); op(H_ADD_CHUNK, 0, 0, 0);
   op(H_TAG_SET, 0, 1, 0); op(H_TAG_SET, 0, 2, 0); op(H_TAG_GET, 0, 0, 0); op(H_TAG_BUILD, 0, 0, 0);
-  op(H_COPY, 0, 0, 0); op(H_COPY, 1, 0, 0); op(H_LOAD, 0x53, 0x01, 0x10); op(H_SERIALIZE, 0, 0, 0);
+  op(H_COPY, 0, 0, 0); op(H_COPY, 1, 0, 0); op(H_LOAD, 0x53, 0x01, 0x10); op(H_SERIALIZE, 0, 0, 0); op(H_RESET_HANDLE, 0, 1, 0);
   return A;
 }
 
@@ -291,7 +343,7 @@ static void camp_HISTX(Ctx& ctx, int maxlen) {
 static void camp_HISTR(Ctx& ctx, uint64_t count, uint64_t variant) {
   Case c; c.campaign = "HISTR";
   // opcode weights: creation and structure ops more frequent than reads
-  static const int weights[hist::H_COUNT] = {10, 3, 2, 3, 5, 8, 3, 8, 4, 5, 5, 5, 6, 4, 5, 3, 3, 3, 1, 1, 2};
+  static const int weights[hist::H_COUNT] = {10, 3, 2, 3, 5, 8, 3, 8, 4, 5, 5, 5, 6, 4, 5, 3, 3, 3, 1, 1, 2, 2};
   std::vector<uint8_t> wheel; for (int o = 0; o < hist::H_COUNT; o++) for (int k = 0; k < weights[o]; k++) wheel.push_back((uint8_t)o);
   for (uint64_t i = 0; i < count && !ctx.stop(); i++) {
     if (!ctx.mine(i)) continue;
@@ -354,7 +406,26 @@ static void camp_GROW(Ctx& ctx, size_t maxn) {
 }
 static void camp_ALOAD(Ctx& ctx, bool thorough) {
   Case c; uint64_t idx = 0;
-  auto both = [&](const gen::Bytes& b) { c.data = b; c.campaign = "ALOAD"; ctx.exec(c); c.campaign = "STATELESS"; ctx.exec(c); };
+  auto both = [&](const gen::Bytes& b) {
+    memset(c.aux, 0, sizeof c.aux);
+    c.data = b; c.campaign = "ALOAD"; ctx.exec(c); c.campaign = "STATELESS"; ctx.exec(c);
+    if (!g_hooks) return;
+    // every single-fault schedule of load / copy / serialize_alloc under the arena
+    for (uint64_t opk = 0; opk < 3; opk++) {
+      ar::reset_all(); use_arena();
+      struct cbor_load_result res; cbor_item_t* it = cbor_load(b.data(), b.size(), &res);
+      uint64_t N = 0;
+      if (it) {
+        if (opk == 0) N = ar::g.requests;
+        else { ar::reset_counters(); if (opk == 1) { cbor_item_t* cp = cbor_copy(it); if (cp) cbor_decref(&cp); } else { unsigned char* bb = nullptr; size_t l = 0; cbor_serialize_alloc(it, &bb, &l); if (bb) _cbor_free(bb); } N = ar::g.requests; }
+        cbor_decref(&it);
+      }
+      use_va();
+      c.campaign = "AFAULT";
+      for (uint64_t k = 0; k < N; k++) { c.aux[0] = k; c.aux[1] = opk; ctx.exec(c); }
+    }
+    memset(c.aux, 0, sizeof c.aux);
+  };
   gen::E2* ep = nullptr;
   gen::E2 e(gen::leaves_full(), [&](const gen::Bytes& b, int) {
     uint64_t i = idx++; if (!ctx.mine(i)) return;
